@@ -17,6 +17,7 @@ import (
 	"strings"
 	"sync/atomic"
 	"testing"
+	"time"
 
 	log "github.com/sirupsen/logrus"
 )
@@ -142,4 +143,6 @@ func TestVerifC07(t *testing.T) {
 		fmt.Fprintf(w, "%s | %s | %s\n", line, tb, vfC09Tables(pkt, false, fac, c.Now))
 		w.Flush() // see c09_test.go: the first case without a line is the one that killed the process
 	}
+	// let a goroutine that is about to die (panic outside every recover) do so while the process is still there
+	time.Sleep(30 * time.Millisecond)
 }
